@@ -485,6 +485,9 @@ func (o *orch) writeEvidence(m *sim.WorkerResult, distinct, nViol, knownHit int,
 		}
 	}
 	sort.Strings(zeroProbes)
+	if len(zeroProbes) > 0 {
+		fmt.Printf("NOTE: expected probes that never fired in this batch (the workload did not reach them): %s\n", strings.Join(zeroProbes, ", "))
+	}
 	samples := []any{}
 	for _, s := range m.Samples {
 		samples = append(samples, s)
